@@ -369,6 +369,11 @@ def gen_parts(rng, freq=None, mixed_ok=False):
                 days.append([wd, n])
             else:
                 days.append([wd, None])
+        if nth and days and rng.random() < 0.15:
+            # the same weekday twice with different ordinals: the 1st and the 3rd Monday
+            wd0, n0 = days[0]
+            n1 = rng.choice([x for x in (1, 2, 3, -1, -2) if x != n0])
+            days.append([wd0, n1])
         if mixed_ok and nth and days:
             days.append([days[0][0], None])          # e.g. [1MO, MO]
     dom = []
